@@ -6,7 +6,7 @@
    enforces "a foreign key constraint can only be created when the referenced table exists" and "a
    table can only be dropped when no other table holds a constraint referencing it".
    Definitions only. *)
-From Coq Require Import List NArith Bool.
+From Coq Require Import List NArith Bool Permutation.
 Import ListNotations.
 From SAV.util Require Import Topo Cycles.
 
@@ -222,3 +222,28 @@ Fixpoint exec (d : db) (l : list stmt) : option db :=
   | [] => Some d
   | s :: r => match exec1 d s with Some d' => exec d' r | None => None end
   end.
+
+(* ---------------------------------------------------------------- vocabulary of the statements *)
+(* MetaData.tables is a dict keyed by name; every ForeignKey resolves to a table of the MetaData
+   (otherwise NoReferencedTableError); constraints of one table are distinct objects *)
+Definition wf (md : metadata) : Prop :=
+  NoDup (names md) /\
+  (forall t f, In t md -> In f (t_fks t) -> In (fk_ref f) (names md)) /\
+  (forall t, In t md -> NoDup (map fk_id (t_fks t))).
+
+(* the database holds a part of the metadata: some of its tables, each with all its constraints,
+   referentially closed *)
+Definition consistent (d : db) (md : metadata) : Prop :=
+  NoDup (map fst d) /\
+  (forall n, In n (map fst d) -> In n (names md)) /\
+  (forall t, In t md -> has_table (t_name t) d = true ->
+     Permutation (fks_in (t_name t) d) (t_fks t) /\
+     forall f, In f (t_fks t) -> has_table (fk_ref f) d = true).
+
+(* the catalog is exactly the metadata (tables and constraints, as sets) *)
+Definition cat_equiv (d : db) (md : metadata) : Prop :=
+  Permutation (map fst d) (names md) /\
+  forall t, In t md -> Permutation (fks_in (t_name t) d) (t_fks t).
+
+(* the catalog made by declaring the metadata directly *)
+Definition catalog_of (md : metadata) : db := map (fun t => (t_name t, t_fks t)) md.
